@@ -29,7 +29,7 @@ STYLES = ['tensor', 'components', 'fluid0', 'tensor', 'solution', 'vacuum']
 
 def cases(tier, sd):
     rng = np.random.default_rng([int(sd), 1])
-    n = 40 if tier == "quick" else 640
+    n = 72 if tier == "quick" else 800
     out = []
     for i in range(n):
         style = STYLES[i % len(STYLES)]
